@@ -1,9 +1,30 @@
 (* C01 - Version ordering is exactly dpkg's ordering. *)
 From Coq Require Import String.
 From Coq Require Import NArith ZArith List Bool.
-From DI Require Import Result PyStr Version Dpkg Policy OrderFacts VersionFacts ParseFacts VersionOrder.
+From DI Require Import Result PyStr Version Dpkg Policy OrderFacts VersionFacts ParseFacts VersionOrder DpkgFacts DpkgVersion.
 Import ListNotations.
 Open Scope Z_scope.
+
+(* the transcription of dpkg's verrevcmp computes the key order, for ALL strings *)
+Theorem C01_verrevcmp_is_key_order : forall x y,
+  Z.sgn (verrevcmp x y) = Z_of_cmp (cmp_key (key x) (key y)).
+Proof. exact verrevcmp_key. Qed.
+Print Assumptions C01_verrevcmp_is_key_order.
+
+(* single components are ordered exactly as dpkg's verrevcmp orders them *)
+Theorem C01_compare_strings_is_verrevcmp : forall x y, allowed x -> allowed y ->
+  compare_strings x y = Ok (Z.sgn (verrevcmp x y)).
+Proof. exact compare_strings_verrevcmp. Qed.
+Print Assumptions C01_compare_strings_is_verrevcmp.
+
+(* whole versions are ordered exactly as dpkg_version_compare orders them after
+   dpkg's split (epoch before the first colon or 0, revision after the last hyphen
+   or the empty string) *)
+Theorem C01_compare_versions_is_dpkg : forall a b va vb,
+  from_string a = Ok va -> from_string b = Ok vb ->
+  compare_versions a b = Ok (Z.sgn (dpkg_compare_strings (strip a) (strip b))).
+Proof. exact compare_versions_dpkg. Qed.
+Print Assumptions C01_compare_versions_is_dpkg.
 
 (* single components: alternating non-digit runs (tilde < end < letters < others)
    and digit runs by numeric value, i.e. the key order of Spec/Dpkg.v *)
